@@ -144,10 +144,14 @@ contract('parso.cache._load_from_file_system',
                    'and allocated(parser_cache[g])))',
                    'forall(lambda g1, g2: implies(g1 in parser_cache and g2 in parser_cache and g1 != g2, '
                    'parser_cache[g1] is not parser_cache[g2]))',
-                   'implies(isinstance(file_obj(%s), _NodeCacheItem) and p_time <= file_mtime(%s), '
-                   'file_item(%s).node is not None and file_item(%s).node.ver == ver_at(path, p_time))' % (HP, HP, HP, HP)],
+                   # DISK-INV, stated like the invariant of the memory entries (from the property, not from what the code tests):
+                   # a pickled item holds the tree of the version the source had at the modification time recorded *in the
+                   # item*, an mtime observed earlier (hence <= the mtime now) -- whatever the cache file's own mtime is
+                   'implies(isinstance(file_obj(%s), _NodeCacheItem), file_item(%s).node is not None and '
+                   'file_item(%s).change_time <= p_time and '
+                   'file_item(%s).node.ver == ver_at(path, file_item(%s).change_time))' % (HP, HP, HP, HP, HP)],
          ensures=['implies(result is not None, result.ver == ver_at(path, p_time))',
-                  'implies(result is not None, result is file_item(%s).node and p_time <= file_mtime(%s))' % (HP, HP)],
+                  'implies(result is not None, result is file_item(%s).node)' % HP],
          raises=[], modifies=['parser_cache', '$maps'], props=['C16', 'C17'])
 
 # ---- a tree from the in-memory cache is returned only while the entry's stamp is not older than the file's mtime.
@@ -161,13 +165,12 @@ contract('parso.cache.load_module',
                    'and allocated(parser_cache[g])))',
                    'forall(lambda g1, g2: implies(g1 in parser_cache and g2 in parser_cache and g1 != g2, '
                    'parser_cache[g1] is not parser_cache[g2]))',
-                   # DISK-INV for this source file (assumed of the writer): a cache file that is not older than the
-                   # source's current mtime holds the tree of the current content
-                   'implies(isinstance(file_obj(hashed_path(hashed_grammar, file_io.path, cache_path)), _NodeCacheItem) and '
-                   'cur_mtime(file_io.path) <= file_mtime(hashed_path(hashed_grammar, file_io.path, cache_path)), '
+                   # DISK-INV for this source file (assumed of the writer), see _load_from_file_system
+                   'implies(isinstance(file_obj(hashed_path(hashed_grammar, file_io.path, cache_path)), _NodeCacheItem), '
                    'file_item(hashed_path(hashed_grammar, file_io.path, cache_path)).node is not None and '
+                   'file_item(hashed_path(hashed_grammar, file_io.path, cache_path)).change_time <= cur_mtime(file_io.path) and '
                    'file_item(hashed_path(hashed_grammar, file_io.path, cache_path)).node.ver == '
-                   'ver_at(file_io.path, cur_mtime(file_io.path)))',
+                   'ver_at(file_io.path, file_item(hashed_path(hashed_grammar, file_io.path, cache_path)).change_time))',
                    'forall(lambda g, p: implies(g in parser_cache and p in parser_cache[g], '
                    'parser_cache[g][p] is not None and parser_cache[g][p].node is not None and '
                    'parser_cache[g][p].change_time <= cur_mtime(p) and '
